@@ -31,4 +31,8 @@ int cfgv_blanks;
 #define CFG_VERIF_LOOP_indent __CPROVER_assigns(indent, cfgv_blanks) \
 	__CPROVER_loop_invariant(0 <= indent && indent <= __CPROVER_loop_entry(indent) && cfgv_blanks == __CPROVER_loop_entry(cfgv_blanks) + 2 * (__CPROVER_loop_entry(indent) - indent)) \
 	__CPROVER_decreases(indent)
+/* cfg_getopt_leaf(): ghost cfgv_first is the index of the first entry whose name equals the name asked for (the
+ * terminator index if there is none); "equals" is the verdict of the strcmp / strcasecmp carrier of the unit. */
+int cfgv_first;
+#define CFG_VERIF_LOOP_getopt_leaf __CPROVER_assigns(i) __CPROVER_loop_invariant(i <= (unsigned int)cfgv_first) __CPROVER_decreases(cfgv_term_k - (int)i)
 #endif
